@@ -473,8 +473,8 @@ CASES += [
     ("std axis=(-2,-1) (2,2,3)", "lambda anp, x: anp.std(x, axis=(-2, -1))", [((2, 2, 3), "P")], (0,)),
     ("var axis=(-1,-2) ddof (2,2,3)", "lambda anp, x: anp.var(x, axis=(-1, -2), ddof=1)", [((2, 2, 3), "P")], (0,)),
     # clip against array-valued bounds that broadcast the clipped array
-    ("clip scalar against array bounds", "lambda anp, x: anp.clip(x, " + _np + ".array([0.0, 1.0, 2.0]), " + _np + ".array([3.0, 1.2, 2.5]))", [((), "P")], (0,)),
-    ("clip row against matrix bounds", "lambda anp, x: anp.clip(x, " + _np + ".zeros((2, 3)), " + _np + ".array([[1.0, 2.0, 3.0], [0.2, 3.0, 1.0]]))", [((3,), "P")], (0,)),
+    ("clip scalar against array bounds", "lambda anp, x: anp.clip(x, " + _np + ".array([0.0, 1.0371, 2.0193]), " + _np + ".array([3.0173, 1.2071, 2.5113]))", [((), "P")], (0,)),
+    ("clip row against matrix bounds", "lambda anp, x: anp.clip(x, " + _np + ".zeros((2, 3)) - 0.0171, " + _np + ".array([[1.0371, 2.0193, 3.0173], [0.2071, 3.0173, 1.0371]]))", [((3,), "P")], (0,)),
     # reductions of ONE-element arrays of rank >= 1 (the reduction still removes axes)
     ("max (1,)", "lambda anp, x: anp.max(x)", [((1,), "R")], (0,)),
     ("min (1,1) axis=0", "lambda anp, x: anp.min(x, axis=0)", [((1, 1), "R")], (0,)),
@@ -617,7 +617,8 @@ _SHIFT = [0]
 def _mk(shape, kind, off):
     off = off + _SHIFT[0]
     n = int(onp.prod(shape)) if shape != () else 1
-    v = onp.array([VALS[(off + 3 * i) % 18] + 0.0625 * i for i in range(n)])
+    # dyadic base values plus a small non-dyadic offset: no sample sits exactly on a round constant a case uses as a bound / threshold / kink (clip bounds, 0, 1, ...)
+    v = onp.array([VALS[(off + 3 * i) % 18] + 0.0625 * i + 0.001371 * (i + 1) + 0.000733 * (off % 13) for i in range(n)])
     if kind == "P":  # positive, pairwise distinct reals (domains of log/sqrt/power; no ties)
         v = onp.array([0.4 + 0.31 * ((off * 5 + 7 * i) % 11) + 0.013 * i + 0.05 * off for i in range(n)])
     if kind == "C":
